@@ -69,6 +69,12 @@ VerdictsAgree ==
 \* once a value repeated the history stays rejected (safety: no later call repairs it) for budget-0 fields
 RepeatsNeverForgotten == [][\A f \in DOMAIN mon.fs : mon.fs[f].reps' >= mon.fs[f].reps /\ mon.fs[f].seen \subseteq mon.fs[f].seen']_mcvars
 
+\* the draw-loop rule and its diagnosis agree on every draw sequence of <= 3 values over a small id space
+ASSUME \A un \in SUBSET {"a", "b"} : \A h \in {"a", "b", "c"} :
+         \A d \in UNION {[1..n -> {"a", "b", "c"}] : n \in 0..3} :
+           (DrawVerdict(d, h, un) = <<>>) <=> DrawRuleOK(d, h, un)
+ASSUME /\ DrawRuleOK(<<"a", "b", "c">>, "c", {"a", "b"}) /\ ~DrawRuleOK(<<"a">>, "b", {"a"}) /\ ~DrawRuleOK(<<"c", "a">>, "a", {"b"})
+
 ASSUME /\ RepeatBudget(4096, 96) = 0 /\ RepeatBudget(512, 96) = 0 /\ RepeatBudget(4096, 128) = 0
        /\ RepeatBudget(4096, 56) = 2 /\ RepeatBudget(4096, 64) = 1 /\ RepeatBudget(8192, 32) = 11
        /\ RepeatBudget(1024, 32) = 5 /\ RepeatBudget(512, 56) = 1
